@@ -9,10 +9,11 @@ class C03(Prop):
     id = 'C03'
     module = 'Cbor.Props.C03'
     theorems = ['Props.C03.C03_bytes', 'Props.C03.C03_deterministic', 'Props.C03.int_width', 'Props.C03.shortest_heads', 'Props.C03.head_shortest',
-                'Props.C03.indefinite_shape', 'Props.C03.members_in_order', 'Props.C03.nan_canonical', 'Lemmas.Ser.ser_item']
+                'Props.C03.indefinite_shape', 'Props.C03.members_in_order', 'Props.C03.nan_canonical', 'Lemmas.Ser.ser_item',
+                'Props.C03.C03_decode_encode', 'Props.C03.C03_roundtrip', 'Spec.RT.decode_encode', 'Lemmas.RoundTrip.encode_renorm']
     trusted_base = BASE_TRUST + SER_TRUST + [
-        'round trip: Spec.decode (Spec.encode t) = t is evaluated by the specification driver on every tree of the corpus (not a theorem); the '
-        'implementation and the model are compared on serialize -> load -> serialize (ROUND), and load_eq / ser_item relate each half to the Spec']
+        'round trip: a theorem (Spec.RT.decode_encode, lifted through load_eq: C03_roundtrip) for canonical trees below 2^56 encoded bytes with the non-refusing allocator '
+        'oracle; additionally evaluated by the specification driver on every tree of the corpus, and the implementation and the model are compared on serialize -> load -> serialize (ROUND)']
     rule = ('trees: every leaf kind x boundary value (0,23,24,255,256,65535,65536,2^32-1,2^32,2^64-1), empty and multi-chunk indefinite strings, '
             'all container kinds nested to depth 4 (5 thorough) with partially filled definite containers and shared members, counts/lengths at '
             '255/256/65535/65536, a 40-deep chain; plus every tree the decoder returns for the enumerated well-formed inputs of C02; '
